@@ -106,6 +106,19 @@ func (e *Encoder) checkEncodeRefMap(v reflect.Value) (int, bool) {
 		}
 	}
 
+	// nil slices and empty slices all share one address (nil, or the runtime's zero-size
+	// base) without being the same value: give each its own key, so that it takes the
+	// ordinal the decoder assigns to every list but is never mistaken for an earlier one
+	if kind == reflect.Slice {
+		sv := v
+		if sv.Kind() == reflect.Ptr {
+			sv = sv.Elem()
+		}
+		if sv.Len() == 0 {
+			addr = unsafe.Pointer(PackPtr(sv).Pointer())
+		}
+	}
+
 	if elem, ok := e.refMap[addr]; ok {
 		// the array addr is equal to the first elem, which must ignore
 		if elem.kind == kind {
